@@ -274,7 +274,7 @@ impl Prop for C08 {
         Ok(())
     }
     fn rule(&self) -> String {
-        "generated (site |lat|<=70 with half the mass in 45-70, GMT within 2 h, 8 named methods x 14 policies, substitute latitude in [-66,66], date mixture; interval-consuming policies (half-of-night, minutes-from-maghrib 'invalid') only with angle-based methods, optionally with Fajr/Isha intervals in [1,120]). Each case is compared with the same call under no policy. Non-trivial = a day on which some time is missing conventionally, or an 'always' policy; distinct by hash of the case".into()
+        "generated (site |lat|<=70 with half the mass in 45-70, GMT within 2 h, 8 named methods x 14 policies, substitute latitude in [-66,66], date mixture; interval-consuming policies (half-of-night, minutes-from-maghrib 'invalid') only with angle-based methods, optionally with Fajr/Isha intervals in [1,120]). Each case is compared with the same call under no policy. One case in 16 is a nearest-latitude 'always' policy with the substitute latitude 3e-7..3e-5 deg from the site's own, further ones within 1e-8..1e-3 deg or exactly equal; one in 31 has the latitude bisected onto the polar-day limit; all four rounding modes; every case is preceded by a priming call with a sibling input. Non-trivial = a day on which some time is missing conventionally, or an 'always' policy; distinct by hash of the case".into()
     }
     fn assumptions(&self) -> Vec<String> {
         vec![
